@@ -17,6 +17,14 @@ recorded LLL answer of a window of an issuer whose nonces carry the bias contain
 private key and the nonces), then EVERY signature of that issuer in the batch is marked weak with
 DISCRETE_LOG = format(d, "x").  What remains oracle — "LLL returns a basis containing ± the planted
 row" — is only counted: rep.extra['chain_statistics'].
+
+Second review (M1): the row is compared as a LITERAL integer row — first entry n*w+1 (or the
+multiplier), tail entries the small parts times w — and the key position is classified: `d` itself
+(the hypothesis of Props/C08Chain.lean chain_*), `d - n` (the other member of `keyReps d n`,
+Props/C08ChainAny.lean chain_bias_family), or another representative of d mod n (covered by chain_*_any
+only).  fpylll leaves the centred representative, so `d - n` occurs for every key above n/2.
+(M2) per planted row the hypotheses that make it SHORT are evaluated with the actual bias of the row:
+the margin r*bl + 2M <= M*bits, ScaleShort (2*2^(bl-bits))^M < n^(M-r), WeightOK n^r*2^M <= w^M.
 """
 import math
 
@@ -79,6 +87,37 @@ def nonces(rng, n, style, count):
   return [rng.randrange(1, n) for _ in range(count)], {}
 
 
+GMP_MULT = {32: 0x29CF535, 64: 0xBAECD515DAF0B49D, 128: 0x48A74F367FA7B5C8ACBB36901308FA85}
+
+
+def gmp_nonces(size, n, seed, count):
+  """mpz_urandomm over gmp_randinit_lc_2exp_size(size) (as corr/c08_lattice.py): chunks of size/2 upper state
+  bits, least significant chunk first, rejection of values >= n."""
+  mul, mod, half, nb = GMP_MULT[size], 1 << size, size // 2, n.bit_length()
+  st, out = seed % mod, []
+  while len(out) < count:
+    k, got = 0, 0
+    while got < nb:
+      st = (mul * st + 1) % mod
+      k |= (st >> (size - half)) << got
+      got += half
+    k &= (1 << nb) - 1
+    if 0 < k < n:
+      out.append(k)
+  return out
+
+
+def factory_line(fac):
+  ents = []
+  for e in fac:
+    flat = []
+    for c_, d_ in e['constants']:
+      flat += [int(c_), int(d_)]
+    ents.append(L([int(e['curve']), e['lcg'].value, e['sample_size'], e['min_signatures'],
+                   e['sliding_window_size'], e['w']] + flat))
+  return ';'.join(ents) if ents else '[]'
+
+
 def sign_with(w, iss, ks, style, extra):
   """real ECDSA signatures of `iss` with the given nonces (as c02s.World.sign_many)."""
   c = w.curves[iss['cid']]
@@ -95,8 +134,27 @@ def sign_with(w, iss, ks, style, extra):
   return out
 
 
+def key_rep(x, d, n):
+  """which representative of d mod n the key position holds (None: not congruent to d)."""
+  if (x - d) % n:
+    return None
+  return 'd' if x == d else 'd-n' if x == d - n else 'other'
+
+
+def short_stats(n, w_, M, r, e):
+  """the shortness hypotheses of Props/C08ChainAny.lean for a row with small parts e (already divided by w):
+  bits := bl - max|e|.bit_length() (so |e_i| < 2^(bl-bits) holds), margin, ScaleShort, WeightOK."""
+  L_ = n.bit_length()
+  bits = L_ - max(abs(v) for v in e).bit_length()
+  return dict(bits=bits, M=M, r=r, bl=L_, w_bits=abs(w_).bit_length() - 1,
+              margin=(M >= r and r * L_ + 2 * M <= M * bits),
+              scale_short=(M >= r and (2 * 2 ** (L_ - bits)) ** M < n ** (M - r)),
+              weight_ok=(n ** r * 2 ** M <= w_ ** M))
+
+
 def planted_in(bias, n, w_, d, ks, mult, basis, bits=BITS):
-  """is +- the planted row of Props/C08Chain.lean among the rows of `basis`?
+  """is +- the planted row of Props/C08ChainAny.lean among the rows of `basis`, as a LITERAL integer row
+  (key position: any representative of d mod n, classified in desc['rep'])?
   returns (found, description of the row found / None)."""
   L_ = n.bit_length()
   m = len(ks)
@@ -109,23 +167,32 @@ def planted_in(bias, n, w_, d, ks, mult, basis, bits=BITS):
         continue
       e = [v // w_ for v in r[2:]]
       if bias in (1, 2, 3):
-        if r[0] != n * w_ + 1 or (r[1] - d) % n:
+        rep = key_rep(r[1], d, n)
+        if r[0] != n * w_ + 1 or rep is None:
           continue
+        desc = dict(rep=rep, y_is_d=(r[1] == d), centred=(2 * abs(r[1]) <= n), negated=(t == -1),
+                    bits=max(abs(v) for v in e).bit_length())
         if bias == 1:
           if e == list(ks):
-            return True, dict(y_is_d=(r[1] == d), bits=max(abs(v) for v in e).bit_length())
+            desc.update(short_stats(n, w_, m, 1, e))
+            return True, desc
         elif bias == 2:
           # k_i = top + e_i for ONE integer top
           if len({k - ei for k, ei in zip(ks, e)}) == 1 and all(abs(v) < 2**max(0, L_ - bits) for v in e):
-            return True, dict(y_is_d=(r[1] == d), bits=max(abs(v) for v in e).bit_length())
+            desc.update(short_stats(n, w_, m - 1, 1, e))
+            return True, desc
         else:
           # k_i = low + w*h_i for ONE integer low
           beta = w_.bit_length() - 1
           if len({k - w_ * hi for k, hi in zip(ks, e)}) == 1 and all(abs(v) < 2**max(0, L_ - beta) for v in e):
-            return True, dict(y_is_d=(r[1] == d), bits=max(abs(v) for v in e).bit_length())
+            desc.update(short_stats(n, w_, m - 1, 1, e))
+            # the theorem's bias parameter is beta (what the default weight exploits), not the common bits
+            desc['beta'] = beta
+            desc['margin_beta'] = (L_ + 2 * (m - 1) <= (m - 1) * beta)
+            return True, desc
       else:
         # GENERALIZED: LLL returns the planted row of a SMALL MULTIPLE c*mult of the secret multiplier
-        # (c*(top + e_i) has a common prefix too); chain_generalized applies with mult := r[0].
+        # (c*(top + e_i) has a common prefix too); chain_generalized(_any) applies with mult := r[0], y := r[1].
         if math.gcd(r[0], n) != 1 or (r[1] - r[0] * d) % n:
           continue
         c = r[0] * int(gmpy2.invert(mult, n)) % n
@@ -134,9 +201,39 @@ def planted_in(bias, n, w_, d, ks, mult, basis, bits=BITS):
           continue
         if len({(r[0] * k - ei) % n for k, ei in zip(ks, e)}) == 1 and \
             all(abs(v) < 2**max(0, L_ - bits + 20) for v in e):
-          return True, dict(exact=abs(c) == 1, c_bits=abs(c).bit_length(),
-                            bits=max(abs(v) for v in e).bit_length())
+          desc = dict(exact=abs(c) == 1, c_bits=abs(c).bit_length(), rep='any', centred=(2 * abs(r[1]) <= n),
+                      negated=(t == -1), bits=max(abs(v) for v in e).bit_length())
+          desc.update(short_stats(n, w_, m - 1, 2, e))
+          return True, desc
   return False, None
+
+
+ROW_KEYS = ('row_key_is_d', 'row_key_is_d_minus_n', 'row_key_other_representative', 'row_key_centred', 'row_negated',
+            'row_margin_hypothesis', 'row_scale_short', 'row_weight_ok')
+
+
+def row_stats(s, desc):
+  """adds the classification of one planted row found to the statistics dict s."""
+  for k in ROW_KEYS:
+    s.setdefault(k, 0)
+  if desc is None:
+    return
+  rep = desc.get('rep')
+  s['row_key_is_d'] += int(rep == 'd')
+  s['row_key_is_d_minus_n'] += int(rep == 'd-n')
+  s['row_key_other_representative'] += int(rep == 'other')
+  s['row_key_centred'] += int(bool(desc.get('centred')))
+  s['row_negated'] += int(bool(desc.get('negated')))
+  s['row_margin_hypothesis'] += int(bool(desc.get('margin_beta', desc.get('margin'))))
+  s['row_scale_short'] += int(bool(desc.get('scale_short')))
+  s['row_weight_ok'] += int(bool(desc.get('weight_ok')))
+  if 'scale_short' in desc and not (desc.get('scale_short') and desc.get('weight_ok')
+                                    and desc.get('margin_beta', desc.get('margin'))):
+    # key found although the (sufficient, not necessary) shortness hypotheses fail: recorded with its parameters
+    ex = s.setdefault('rows_found_outside_the_shortness_hypotheses', [])
+    if len(ex) < 8:
+      ex.append({k: desc.get(k) for k in ('bl', 'M', 'r', 'bits', 'beta', 'w_bits', 'margin', 'margin_beta',
+                                            'scale_short', 'weight_ok') if desc.get(k) is not None})
 
 
 def digits(k, words):
@@ -251,6 +348,7 @@ def correspondence(rep, rng, tier):
           hit = d in res
           st(fam, 'key_found', int(hit))
           st(fam, 'planted_row_in_lll_output', int(pl))
+          row_stats(stats[fam], desc if pl else None)
           if pl and bias_v == 4:
             s_ = stats[fam]
             s_['generalized_row_is_exact_multiplier'] = s_.get('generalized_row_is_exact_multiplier', 0) + int(desc['exact'])
@@ -343,9 +441,151 @@ def correspondence(rep, rng, tier):
     cid = main[i % 3]
     run('CheckCr50U2f', [cid], 2 + i % 2, '%dbit' % int(w.curves[cid].n).bit_length())
   run('CheckCr50U2f', [2, 6], 3, 'two-curves')
+  # ---- second review L11: the real CheckLCGNonceGMP (never run here before), HiddenNumberProblemForCurve recorded
+  from paranoid_crypto.lib import lcg_constants
+  real_factory = lcg_constants.CONSTANT_FACTORY
+  bf = Batch('hnp.forcurve')
+  bf.let('real', factory_line(real_factory))
+  bsh = Batch('hnp.shipped')
+  bsh.add('hnp.shipped 0', factory_line(real_factory[:1]), tag='shipped-entry-0=Model/LcgShipped.lean')
+
+  def run_lcg(cid, size, count, reps_tag):
+    name = 'CheckLCGNonceGMP'
+    n = int(w.curves[cid].n)
+    iss = w.issuer(cid)
+    ks = gmp_nonces(size, n, rng.getrandbits(300), count)
+    sp = sign_with(w, iss, ks, 'gmp', {})
+    iss2 = w.issuer(cid)
+    sp2 = sign_with(w, iss2, [rng.randrange(1, n) for _ in range(2)], 'healthy', {})
+    specs = [sp[0]] + sp2[:1] + sp[1:] + sp2[1:]
+    pbs = [w.to_pb(x) for x in specs]
+    events, cur = [], {}
+
+    def rec_reduce(lat):
+      out = real_reduce(lat)
+      cur.setdefault('lll', []).append([[int(x) for x in r] for r in out])
+      return out
+    real_f = hnp.HiddenNumberProblemForCurve
+
+    def f(a, b, curve, lcg, flags):
+      cur.clear()
+      res = real_f(a, b, curve, lcg, flags)
+      events.append(([int(x) for x in a], [int(x) for x in b], int(curve), lcg, flags.value,
+                     list(cur.get('lll', [])), [int(x) for x in res]))
+      return res
+    lll.reduce = rec_reduce
+    hnp.HiddenNumberProblemForCurve = f
+    err = None
+    try:
+      w.reg[name].Check(pbs)
+    except Exception as e:  # noqa
+      err = e
+    finally:
+      lll.reduce = real_reduce
+      hnp.HiddenNumberProblemForCurve = real_f
+    fam = '%s/%s' % (name, reps_tag)
+    if err is not None:
+      # an exception of the real check on well-formed signatures is a divergence from the (total) model
+      bf.add('hnp.forcurve [] [] %s %s %s 7 $real []' % (H(cid), H(n), O(lcg_constants.LcgName.GMP.value)),
+             'err ' + type(err).__name__, tag='chain:lcg:raised')
+      rep.notes.append('chain run %s raised %r' % (name, err))
+      return
+    verdicts = [c02s.read_verdict(pb, name) for pb in pbs]
+    by_ab = {}
+    for x in specs:
+      si = pow(x['ss'], -1, n)
+      by_ab[(x['z'] * si % n, x['rr'] * si % n)] = x
+    for a, b, curve, lcg, flags, bases, res in events:
+      sps = [by_ab.get((ai, bi)) for ai, bi in zip(a, b)]
+      biased = all(x is not None and x['style'] == 'gmp' for x in sps)
+      pl, desc = False, None
+      if biased:
+        d = sps[0]['d']
+        subs = list(hnp._HiddenNumberProblemSubsets(list(a), list(b), curve, lcg, hnp.SearchStrategy(flags)))
+        for (a0, b0, cs_, w_), basis_ in zip(subs, bases):
+          et = []
+          for ai, bi in zip(a0, b0):
+            for c_, d_ in cs_:
+              v = (((ai * c_ - d_) % n) + ((bi * c_) % n) * d) % n
+              et.append(v if v <= n // 2 else v - n)
+          tail = [e * w_ for e in et]
+          for row in basis_:
+            for t in (1, -1):
+              rr = [t * v for v in row]
+              rep_ = key_rep(rr[1], d, n) if len(rr) == len(tail) + 2 else None
+              if rep_ is not None and rr[0] == n * w_ + 1 and rr[2:] == tail and not pl:
+                pl = True
+                desc = dict(rep=rep_, centred=(2 * abs(rr[1]) <= n), negated=(t == -1))
+                if any(et):
+                  desc.update(short_stats(n, w_, len(et), 1, et))
+        st(fam, 'solver_calls_biased_issuer')
+        hit = d in res
+        st(fam, 'key_found', int(hit))
+        st(fam, 'planted_row_in_lll_output', int(pl))
+        row_stats(stats[fam], desc if pl else None)
+        st(fam, 'key_found_other_row', int(hit and not pl))
+        st(fam, 'planted_row_but_key_missing', int(pl and not hit))
+
+      def predf(pl=pl, biased=biased, sps=sps, res=res):
+        # the statement of chain_lcg_any on the real code
+        if not (biased and pl):
+          return None
+        d = sps[0]['d']
+        if d not in res:
+          return 'an LLL answer contains +- the planted row but HiddenNumberProblemForCurve did not return the key'
+        want = '1^%s^%s' % (c02s.S(c02s.DLOG), c02s.S(format(d, 'x')))
+        bad = [i for i, x in enumerate(specs) if x['d'] == d and x['cid'] == sps[0]['cid'] and verdicts[i] != want]
+        if bad:
+          return 'planted row in an LLL answer but signatures %s of the issuer are not flagged with the key' % bad[:5]
+        return None
+      bases_s = '|'.join(MM(m_) for m_ in bases) if bases else '[]'
+      bf.add('hnp.forcurve %s %s %s %s %s %s $real %s' % (L(a), L(b), H(curve), H(n), O(lcg.value), H(flags), bases_s),
+             'ok ' + G(res), tag='chain:lcg:%s' % ('planted-row' if pl else ('biased-no-row' if biased else 'other-issuer')),
+             pred=predf, always=True)
+    for iss_ in (iss,):
+      st(fam, 'issuers')
+      want = '1^%s^%s' % (c02s.S(c02s.DLOG), c02s.S(format(iss_['d'], 'x')))
+      mine = [verdicts[i] for i, x in enumerate(specs) if x['d'] == iss_['d'] and x['cid'] == iss_['cid']]
+      st(fam, 'issuer_fully_flagged', int(bool(mine) and all(v == want for v in mine)))
+
+  for i in range(2 if not thorough else 6):
+    run_lcg(2, (32, 64)[i % 2], 2 + i % 2, 'secp256r1-gmp%d' % (32, 64)[i % 2])
+  if thorough:
+    run_lcg(4, 128, 3, 'secp384r1-gmp128')
   rep.absorb(bl, bl.run())
   rep.absorb(bs, bs.run())
   rep.absorb(bc, bc.run())
+  rep.absorb(bf, bf.run())
+  rep.absorb(bsh, bsh.run())
+
+
+def summarize(rep):
+  """totals over all families of extra.chain_statistics (second review M1/M2): of the runs in which the key was
+  found, how many satisfy the LITERAL oracle hypothesis of which theorem."""
+  stats = rep.extra.get('chain_statistics', {})
+  tot = {}
+  for level, pick in (('solver_level', lambda f: f.startswith('solver/')),
+                      ('check_level', lambda f: not f.startswith('solver/'))):
+    t = dict(key_found=0, planted_row_in_lll_output=0, key_found_other_row=0, planted_row_but_key_missing=0)
+    for k in ROW_KEYS:
+      t[k] = 0
+    for fam, s_ in stats.items():
+      if pick(fam):
+        for k in t:
+          t[k] += s_.get(k, 0)
+    t['hypothesis_of_chain_any (literal row, key position = any representative of d)'] = t['planted_row_in_lll_output']
+    t['hypothesis_of_chain_bias_family (key position d or d-n)'] = t['row_key_is_d'] + t['row_key_is_d_minus_n']
+    t['hypothesis_of_C08Chain.chain_* (key position = d)'] = t['row_key_is_d']
+    tot[level] = t
+  rep.extra['chain_summary'] = tot
+  for level, t in tot.items():
+    # generalized / cr50 rows have no key-position classification (rep 'any' / digit row): counted in planted only
+    rep.notes.append('chain %s: key found %d, literal planted row (any representative) %d, key position d %d, d-n %d, '
+                     'other representative %d, key found through another row %d; margin hypothesis %d, ScaleShort %d, '
+                     'WeightOK %d of the rows classified'
+                     % (level, t['key_found'], t['planted_row_in_lll_output'], t['row_key_is_d'],
+                        t['row_key_is_d_minus_n'], t['row_key_other_representative'], t['key_found_other_row'],
+                        t['row_margin_hypothesis'], t['row_scale_short'], t['row_weight_ok']))
 
 
 def c02s_bias_name(v):
